@@ -1,7 +1,7 @@
 PROP = {
     "id": "C34",
     "theorem_modules": ["Verif.Properties.C34"],
-    "min_theorems": 7,
+    "min_theorems": 8,
     "required_theorems": [
         "Verif.Properties.C34.peephole_jumps",
         "Verif.Properties.C34.peephole_jumps_land",
@@ -9,6 +9,7 @@ PROP = {
         "Verif.Properties.C34.simulation_expr_err_partial",
         "Verif.Properties.C34.simulation_stmt_partial",
         "Verif.Properties.C34.simulation_body_partial",
+        "Verif.Properties.C34.simulation_call_partial",
     ],
     "streams": [
         {"name": "vmeq", "driver": "drv_lang",
@@ -27,8 +28,10 @@ PROP = {
                   "fragment - expressions (value and error case: same value, same error class and kind) and statements "
                   "(let/var, assignment, if/else, while with break/continue, return: same control flow, same value, "
                   "same trace, locals agree with the environment), lifted to a whole activation of the step-counting "
-                  "machine runFrames; see the theorems ending in _partial for what is missing (invocations, "
-                  "statement errors, ??, L1/L2). Stream `vmeq`: every generated program runs on the interpreter, the VM and "
+                  "machine runFrames, and for whole programs with invocations in statement position (log, assert, user "
+                  "functions with at most one parameter, recursion): runVM (compile p) yields the same value and the "
+                  "same log trace as run p; see the theorems ending in _partial for what is missing (invocations "
+                  "nested in expressions, error outcomes of statements, ??, several parameters, L1/L2). Stream `vmeq`: every generated program runs on the interpreter, the VM and "
                   "the VM with peephole optimisation (hook runtime/verif_hooks.go) from fresh identical ledgers; result "
                   "value, error class and kind, logs and event count are compared with each other (Go-vs-Go, no model "
                   "needed) and with the model for in-fragment programs.",
